@@ -333,7 +333,7 @@ def scripted_case(run, rng, i, params=None):
         if rng.random() < 0.3:
             # the peer lowers (or raises) the window it grants in the middle of the request; it acknowledges every segment, so
             # that each acknowledgement lies inside the window it announces
-            params["ack_every"] = 1
+            params["ack_every"] = rng.choice([1, 1, None])       # ... or only the last segment of each window it granted
             params["grants"] = rng.choice([[4, 2], [8, 8, 3, 1], [127, 4, 4, 1], [2, 2, 2, 6], [8, 1]])
             params["req"] = rng.choice([700, 1100, 2500])
     p = params
@@ -369,6 +369,10 @@ def scripted_case(run, rng, i, params=None):
     run.seen("scripted_peer_outcomes", "%s/%s" % (p["withhold"], outs[0]["outcome"] if outs else "none"))
     if len(outs) != 1:
         found.append(("requester-got-%d-outcomes/scripted-peer" % len(outs), {}))
+    elif p["withhold"] is None and outs[0]["outcome"] != "complex-ack":
+        # nothing was lost or withheld, the peer acknowledged everything and stayed within what the requester can take:
+        # a message that can be sent within the limits is sent
+        found.append(("message-within-limits-not-delivered/scripted-peer", {"outcome": outs[0]["outcome"], "reason": outs[0].get("reason")}))
     elif outs[0]["outcome"] == "complex-ack":
         run.count("scripted_peer_answers_delivered")
         if outs[0].get("payload") != payload_for(token, p["rsp"]):
